@@ -14,6 +14,9 @@ func init() { areas["ctx"] = Area{Gen: genCtx, Exec: execCtx} }
 // outcome: verdict of every a-step, comma separated. The checker is ONE allowerContext for the whole sequence
 // (created by the first u-step), exactly as state resolution reuses it.
 func execCtx(op string, args []string) string {
+	if op == "needed" {
+		return execNeeded(args) // C09: full / shuffled+extended / restricted-to-needed providers (gen_authneeded.go)
+	}
 	if op != "seq" {
 		return "bad-op"
 	}
@@ -240,4 +243,5 @@ func genCtx(o *Out, tier string, r *Rng) {
 			o.Sample(ver + " steps=" + strings.Join(steps, ","))
 		}
 	}
+	genAuthNeeded(o, tier, r) // C09: verdict on full / shuffled+extended / restricted-to-needed providers (gen_authneeded.go)
 }
